@@ -94,6 +94,12 @@ class FakeKernel:
             rec['fault'] = fault
             self._notify(rec)
             raise OSError(fault[1], 'injected netlink failure')
+        odd = None
+        if fault and fault[0] == 'odd':
+            # the kernel does what it was asked, but what comes back on the request socket is not an NLMSG_ERROR: a lone NLMSG_DONE, an empty datagram, a message of
+            # another kind (a notification that landed on this socket), a NOOP alone. The daemon learns no verdict
+            odd, fault = fault[1], None
+            rec['fault'] = ('odd', odd)
         if msg is not None:
             if fault:
                 rec['error'] = fault[1]
@@ -104,6 +110,10 @@ class FakeKernel:
         self._notify(rec)
         # the answer carries the port id of the request socket (never the process id here: the event socket took that one)
         self.port_seq = getattr(self, 'port_seq', 0) + 1
+        if odd is not None:
+            seq = struct.unpack_from('=I', bytes(raw), 8)[0] if len(raw) >= 12 else 0
+            return {'done': xfrmdec.nlmsg(3, struct.pack('=i', 0), seq=seq), 'empty': b'', 'noop': xfrmdec.nlmsg(1, b'', seq=seq),
+                    'foreign': xfrmdec.nlmsg(0x1B, bytes(8), seq=seq)}[odd]
         return xfrmdec.enc_ack(bytes(raw), rec['error'], port_id=(0xFFFFEFFF - self.port_seq % 4096) if self.port_ids_like_linux else 0,
                                noop_first=self.multipart_replies and self.port_seq % 3 == 0)
 
